@@ -159,10 +159,9 @@ class SynthDef(metaclass=MetaSynthDef):
                     func).parameters.keys())[len(utl.as_list(prepend)):]
                 self._finish_build()
                 self._func = func
+            finally:
+                # Also for BaseException subclasses that are not Exception.
                 _libsc3.main._current_synthdef = None
-            except Exception:
-                _libsc3.main._current_synthdef = None
-                raise
 
     @property
     def name(self):
